@@ -15,11 +15,15 @@ Record tabs := {
   t_sigs : list (string * (nat * tree))          (* SignatureValue token, (key, SignedInfo) *)
 }.
 
+(* (written with if-then-else, not &&: vm_compute evaluates the arguments of andb eagerly, the tree comparison would be
+   made for every table entry) *)
 Definition dig_tab (tb : tabs) (alg dv : string) (t : tree) : bool :=
-  existsb (fun e => String.eqb (fst (fst e)) alg && String.eqb (snd (fst e)) dv && tree_eqb (snd e) t) (t_digs tb).
+  existsb (fun e => if String.eqb (snd (fst e)) dv then if String.eqb (fst (fst e)) alg then tree_eqb (snd e) t else false else false)
+          (t_digs tb).
 
 Definition sig_tab (tb : tabs) (cert : nat) (sv : string) (si : tree) : bool :=
-  existsb (fun e => String.eqb (fst e) sv && Nat.eqb (fst (snd e)) cert && tree_eqb (snd (snd e)) si) (t_sigs tb).
+  existsb (fun e => if String.eqb (fst e) sv then if Nat.eqb (fst (snd e)) cert then tree_eqb (snd (snd e)) si else false else false)
+          (t_sigs tb).
 
 Record case := {
   c_eng : engine;                                (* the engine variant the implementation was run with *)
@@ -95,13 +99,14 @@ Definition holds (c : case) : bool :=
   match c_obs c with
   | None => true
   | Some (rep, ds) => spec_b (c_cfg c) (cov_of (c_doc c) (c_ddoc c) ds) rep
+                      && spec_one_b (c_cfg c) (cov_of (c_doc c) (c_ddoc c) ds) rep
   end
   && (negb (schema_root (c_or c)) || has_id (c_doc c))
   && oracle_sane (many ASSERTION (c_doc c)) (schema_as (c_or c))
   && match c_ddoc c with Some dd => oracle_sane (decrypted dd) (schema_enc (c_or c)) | None => true end.
 
-(* finding classes (consulted only when holds is false; ALL are FIXED, so a case in any class is a
-   regression and reported as VIOLATION):
+(* finding classes (consulted only when holds is false; 1-3 are FIXED, so a case in one of them is a
+   regression and reported as VIOLATION; 4 is open):
    3 = C02-F3 (fixed: 32211c52; lenient engines only): an un-namespaced element called Assertion / Response carries the ID
        of a signature-checked element (the Response, its Assertion children, the decrypted assertions);
    1 = C02-F1: some signature-carrying item has more than one ds:Signature child, or its first
@@ -125,6 +130,16 @@ Definition bare_clash (c : case) : bool :=
       let bare := bare_ids (c_doc c) ++ match c_ddoc c with Some dd => bare_ids dd | None => [] end in
       existsb (fun t => match attr "ID" t with Some i => mem i bare | None => false end) items).
 
+(* 4 = C02-F4 (open): every field is covered, but no ONE covered element accounts for the whole report; the Response
+       itself carries no signature, parse_assertion's count test is satisfied (exactly one plain Assertion child OR
+       exactly one EncryptedAssertion child) and more than one assertion feeds the report *)
+Definition fed (c : case) : list tree :=
+  many ASSERTION (c_doc c)
+  ++ (if find_encrypt_data (c_doc c) then match c_ddoc c with Some dd => decrypted dd | None => [] end else []).
+Definition mix_class (c : case) : bool :=
+  match many SIGNATURE (c_doc c) with [] => true | _ => false end
+  && count_ok (c_doc c) && Nat.ltb 1 (length (fed c)).
+
 Definition cls (c : case) : nat :=
   match c_obs c with
   | None => 0
@@ -134,6 +149,7 @@ Definition cls (c : case) : nat :=
       if negb (spec_but_issuer_b (c_cfg c) cv rep) then (if sig_guard c then 0 else 1)
       else if negb (spec_issuer_b (c_cfg c) cv rep) then
              (match many SIGNATURE (c_doc c) with [] => 2 | _ => if sig_guard c then 0 else 1 end)
+           else if negb (spec_one_b (c_cfg c) cv rep) then (if mix_class c then 4 else 0)
            else 0
   end.
 
